@@ -136,6 +136,10 @@ def scale_seq(kind: str, arity: int) -> list:
         for n in (1, 126, 127, 128, 129, 255, 256, 16383, 16384, 70000):
             out.append((I("http://a/" + "n" * n), I("http://a/p"), L("é" * n)))
             out.append((B("b" * n), I("http://" + "h" * n + "/x"), L("x", None, "http://d/" + "t" * n)))
+        for n in (16384, 16385, 70000):
+            # the same long subject and object in consecutive statements
+            out.append((I("http://a/" + "s" * n), I("http://a/p"), L("z" * n)))
+            out.append((I("http://a/" + "s" * n), I("http://a/q"), L("z" * n)))
     if arity == 4:
         gs = [DEFAULT, I("http://g/1"), I("http://g/1"), B("g"), I("http://p3.example/ns#n3")]
         out = [(*t, gs[(i // 7) % 5]) for i, t in enumerate(out)]
